@@ -114,6 +114,23 @@ pub fn c03(kind: Kind, obs: &[u8], rt: &RefTable, f10_known: bool) -> Verdict {
                 );
             }
         }
+        // insertion order among entries that the (offset, length, type) triple cannot tell apart: if the
+        // walked entries are, byte string for byte string, a re-ordering of the entries that were added,
+        // then some position holds another entry than the one inserted there
+        let walked: Vec<&[u8]> = w.entries.iter().map(|e| &obs[e.0..(e.0 + e.1).min(obs.len())]).collect();
+        let added: Vec<&[u8]> = rt.entries.iter().map(|e| &rt.img[e.off..(e.off + e.len).min(rt.img.len())]).collect();
+        if walked != added {
+            let (mut a, mut b) = (walked.clone(), added.clone());
+            a.sort();
+            b.sort();
+            if a == b {
+                let i = walked.iter().zip(added.iter()).position(|(x, y)| x != y).unwrap_or(0);
+                return Verdict::Violated(
+                    format!("{}: the walk finds the entries that were added, but not in insertion order (first displaced entry: #{}, {})", kind.name(), i, rt.entries[i].name),
+                    obj(vec![("around", hex_window(obs, w.entries[i].0, 24).into())]),
+                );
+            }
+        }
     } else {
         let n = get(obs, 36, 8);
         if n != rt.slit_n as u64 {
